@@ -229,7 +229,7 @@ class FortranCodegenConservative(FortranCodegen):
         if o.source and o.source.status == SourceStatus.INVALID_CHILDREN:
             # Re-construct header and footer from source if possible
             h_end = o.contains.source.lines[0] if o.contains and o.contains.source else o.source.lines[1]
-            h_end = min(h_end, o.spec.source.lines[0]) if o.spec.source else h_end
+            h_end = min(h_end, o.spec.source.lines[0]) if o.spec and o.spec.source else h_end
 
             if h_end < o.source.lines[1]:
                 header = '\n'.join(o.source.string.splitlines()[:h_end-o.source.lines[0]])
